@@ -204,7 +204,7 @@ def layout_corr(ctx, out):
 
 
 def run(ctx: Ctx) -> Outcome:
-    n = ctx.n(500, 6000)
+    n = ctx.n(1500, 6000)
     out, results = engcheck.run_programs(ctx, n, dict(GEN, n_stmts=ctx.n(9, 16)), "oracle", nontrivial)
     out.rule = ("(a) random single-epoch programs with many views, one backward: for every (view, base) pair value, availability "
                 "and memory sharing of the gradients, and no sharing between gradients of unrelated tensors; (b) 17 view chains x "
